@@ -19,7 +19,7 @@ LINE_ALPHABET_C17 = [
     "k a$$b", "k <x", "k #x", "k", "k v", "k w", "K v", "j v", "%import q", "%import p",
     "<a>", "</a>", "<a b>", "<A B/>", "<a/>", "<b>", "</b>", "<a/ >", "</a/>", "<a b/ >",
     "", "#c", "k  v  w", "a(b", "k $$", "k $$$$x", "%define x v", "%include f", "<a //>",
-    "<a>x", "k </a>", "%import a$$b", "%import  p  q ",
+    "<a>x", "k </a>", "%import a$$b", "%import  p  q ", "%import a$$$$b", "%import $$$$",
     "k $(VZ_C17_PAD)", "k $(VZ_C17_EMPTY)", "k a$(VZ_C17_MID)b", "k $(VZ_C17_LT)", "k x$(VZ_C17_PAD)",
 ]
 
